@@ -199,6 +199,8 @@ pub trait Observer {
     fn at_block(&mut self, _blk: &Term<Blk>, _state: &State) -> bool {
         true
     }
+    /// Called for every executed `Load`/`Store` with the evaluated address, before the access happens.
+    fn at_access(&mut self, _def: &Term<Def>, _addr: u64, _size: usize, _state: &State) {}
     /// Called for `Jmp::Call` with a return site, after the call event was recorded.
     fn at_call(&mut self, _call: &Term<Jmp>, _target: &Tid, _state: &mut State) -> CallAction {
         CallAction::Default
@@ -268,6 +270,7 @@ pub fn run_sub(sub: &Term<Sub>, state: &mut State, regs: &[Variable], limits: &L
                 Def::Load { var, address } => {
                     let a = state.eval(address).v as u64;
                     let w = u64::from(var.size) as usize;
+                    obs.at_access(def, a, w, state);
                     if let Some(rs_) = &state.unpoisoned_ranges {
                         let ordinary = rs_.iter().any(|(lo, hi)| a >= *lo && a.wrapping_add(w as u64) <= *hi);
                         let tainted = !ordinary || (0..w as u64).any(|i| state.poison_mem.contains(&a.wrapping_add(i))) || address.input_vars().iter().any(|x| state.poison_vars.contains(&x.name));
@@ -287,6 +290,7 @@ pub fn run_sub(sub: &Term<Sub>, state: &mut State, regs: &[Variable], limits: &L
                 Def::Store { address, value } => {
                     let a = state.eval(address).v as u64;
                     let v = state.eval(value);
+                    obs.at_access(def, a, v.w, state);
                     if ptr_null_only(state, a) || invalid(state, a, v.w) {
                         return Run { events, stop: Stop::NullAccess, blocks: blocks_run, callother_returns: co_returns };
                     }
